@@ -22,11 +22,11 @@ NCPU = os.cpu_count() or 4
 
 class Query:
     def __init__(s, name, cpp, q, defines=(), unwind=3, unwindset=None, timeout=600, solvers=('kissat', 'minisat'), checks=None,
-                 witness=True, expect_witness=True, note='', mem_gb=24, extra_flags=()):
+                 witness=True, expect_witness=True, note='', mem_gb=24, extra_flags=(), must_cover=0):
         s.name, s.cpp, s.q, s.defines = name, cpp, q, tuple(defines)
         s.unwind, s.unwindset, s.timeout, s.solvers = unwind, unwindset, timeout, tuple(solvers)
         s.checks, s.witness, s.note, s.mem_gb = checks, witness, note, mem_gb
-        s.extra_flags = tuple(extra_flags)
+        s.extra_flags = tuple(extra_flags); s.must_cover = must_cover
 
 
 def sh(cmd, **kw):
@@ -159,6 +159,8 @@ class Runner:
             flags += ['--no-standard-checks']
             if Q.checks == 'pointer': flags += ['--pointer-check']
             elif Q.checks == 'all': flags.remove('--no-standard-checks')
+        elif kind == 'cover':
+            flags += ['-DVP_WITNESS', f'-DVP_MUST_COVER={Q.must_cover}u', '--no-standard-checks', '--trace']
         else:
             flags += ['-DVP_WITNESS', '--no-standard-checks', '--trace']
         tmpdir = tempfile.mkdtemp(prefix='t_', dir=s.work)
@@ -187,6 +189,8 @@ class Runner:
                     futs[ex.submit(s.job, Q, cfile, 'verify', solver)] = (Q, 'verify', solver)
                 if Q.witness:
                     futs[ex.submit(s.job, Q, cfile, 'witness', Q.solvers[0])] = (Q, 'witness', Q.solvers[0])
+                if Q.must_cover:
+                    futs[ex.submit(s.job, Q, cfile, 'cover', Q.solvers[0])] = (Q, 'cover', Q.solvers[0])
             done = {}
             for f in cf.as_completed(futs):
                 Q, kind, solver = futs[f]
@@ -218,6 +222,14 @@ def classify(entry):
         if w['status'] == 'success': return 'broken', 'witness unreachable: the harness cannot finish inside the bound (vacuous pass)'
         if w['status'] != 'failure': return 'broken', 'witness run: ' + w['status']
         if not any('witness' in (f['description'] or '') for f in w['failed']): return 'broken', 'witness failed for another reason'
+    cov = [r for r in entry['runs'] if r['kind'] == 'cover']
+    if Q.must_cover:
+        if not cov: return 'broken', 'cover query did not run'
+        c = cov[0]['parsed']
+        if c['status'] == 'success':
+            # all threads can finish (witness) but the required state is unreachable for every schedule: property violation
+            return 'violated', dict(cov[0], unreachable=True)
+        if c['status'] != 'failure': return 'broken', 'cover run: ' + c['status']
     return 'verified', None
 
 
@@ -286,6 +298,8 @@ def main():
                     nontrivial += 1
             elif verdict == 'violated':
                 r = detail
+                if r.get('unreachable'):
+                    r['parsed']['failed'] = [dict(property='cover', description=f'required state (coverage mask {Q.must_cover}) is unreachable for every schedule inside the bound', trace=None)]
                 f0 = r['parsed']['failed'][0]
                 sc = extract_schedule(f0['trace'], tn)
                 rp = os.path.join(ROOT, 'replays', a.pid, Q.name + '.json')
